@@ -512,6 +512,16 @@ def search(ctx):
         for f in fails:
             ctx.fail(f['signature'], f['what'], dict(kind='sim', cfg=cfg))
         ctx.count('oracle_runs')
+    # the fixed zoo of unusual-but-valid configurations (own timelines, units, pregnancy burn-in, user objects, ...)
+    from harness import zoo
+    for name, cfg in zoo.configs():
+        try:
+            fails = oracle_run(cfg)
+        except Exception as e:
+            ctx.count('zoo_exceptions'); ctx.notes['last_zoo_exception'] = f'{name}: {type(e).__name__}: {e}'; continue
+        ctx.count('zoo_runs')
+        for f in fails:
+            ctx.fail(f['signature'], f'[zoo:{name}] ' + f['what'], dict(kind='sim', cfg=cfg))
     for f in oracle_guards():
         ctx.fail(f['signature'], f['what'], dict(kind='guards'))
     # a distribution parameter replaced on an initialised simulation
